@@ -85,22 +85,137 @@ func c10ReachingDefs(f *core.FuncInfo, v *types.Var, at core.Point) (defs []assi
 	return defs, entry
 }
 
-func c10Frame(c *core.Ctx) {
-	c.Clause("C10.frame", func() {
-		// calcFrameIdx as one body (helpers it calls are seen through; the quorum test stays a call)
-		f := c10Inlined(c.Fn(c10Calc), c10FCQ)
-		ev := f.Param(0)
-		c.Need(ev != nil, "calcFrameIdx names its event parameter")
-		// the self-parent's frame: the variable that receives <…SelfParent()…>.Frame(); its other values are 0
-		var spf *types.Var
-		for _, a := range assignments(f) {
-			if v := varOf(f, a.LHS); v != nil && a.RHS != nil {
-				if call, ok := ast.Unparen(core.StripConv(f.Info(), a.RHS)).(*ast.CallExpr); ok && methodNamed(calleeName(f, call), "Frame") && c10MentionsMethod(f, call, "SelfParent") {
-					spf = v
+// c10SpfVar finds the variable of f that receives <…SelfParent()…>.Frame() (its other values are 0) and
+// the event whose self-parent that is (nil when it cannot be named).
+func c10SpfVar(f *core.FuncInfo) (spf, owner *types.Var) {
+	for _, a := range assignments(f) {
+		if v := varOf(f, a.LHS); v != nil && a.RHS != nil {
+			if call, ok := ast.Unparen(core.StripConv(f.Info(), a.RHS)).(*ast.CallExpr); ok && methodNamed(calleeName(f, call), "Frame") && c10MentionsMethod(f, call, "SelfParent") {
+				spf = v
+				owner = c10MethodOwner(f, call, "SelfParent", 4)
+			}
+		}
+	}
+	return spf, owner
+}
+
+// c10MethodOwner: the variable on which the method mentioned in n (see c10MentionsMethod) is invoked.
+func c10MethodOwner(f *core.FuncInfo, n ast.Node, method string, depth int) *types.Var {
+	var out *types.Var
+	ast.Inspect(n, func(m ast.Node) bool {
+		if _, ok := m.(*ast.FuncLit); ok || out != nil {
+			return false
+		}
+		switch x := m.(type) {
+		case *ast.CallExpr:
+			if methodNamed(calleeName(f, x), method) {
+				if sel, ok := ast.Unparen(x.Fun).(*ast.SelectorExpr); ok {
+					out = varOf(f, c15Through(f, sel.X))
+				}
+			}
+		case *ast.Ident:
+			if depth > 0 {
+				if v, ok := f.Info().Uses[x].(*types.Var); ok && !v.IsField() {
+					if rhs, _ := c15SingleDef(f, v); rhs != nil {
+						out = c10MethodOwner(f, rhs, method, depth-1)
+					}
 				}
 			}
 		}
+		return true
+	})
+	return out
+}
+
+// c10FrameViews locates the frame search by what it does: the functions of the package that test frames
+// with forklessCausedByQuorumOn, each as an inlined view in which the self-parent's frame is computed.
+// When the searching function receives its start frame from its callers (the self-parent lookup lives
+// there), the views of those callers are taken instead: the search is then part of their bodies and the
+// parameter is bound to the caller's value.
+func c10FrameViews(p *core.Prog) (views []*core.FuncInfo, why string) {
+	fcq := p.Func(c10FCQ)
+	if fcq == nil || fcq.Obj == nil {
+		return nil, "forklessCausedByQuorumOn does not resolve"
+	}
+	pkgFuncs := p.FuncsInPkg(core.RelPkg(fcq.Pkg.PkgPath))
+	callsObj := func(g *core.FuncInfo, obj *types.Func) bool {
+		for _, h := range append([]*core.FuncInfo{g}, c10AllLits(g)...) {
+			for _, cs := range h.Calls() {
+				if fn, ok := cs.Callee.(*types.Func); ok && fn == obj {
+					return true
+				}
+			}
+		}
+		return false
+	}
+	seen := map[*core.FuncInfo]bool{}
+	var visit func(g *core.FuncInfo, depth int)
+	visit = func(g *core.FuncInfo, depth int) {
+		if seen[g] {
+			return
+		}
+		seen[g] = true
+		v := c10Inlined(g, c10FCQ)
+		if len(v.CallsTo(c10FCQ)) == 0 {
+			why = "the frame search of " + short(g.Name) + " cannot be seen as part of its caller's body"
+			views = append(views, nil)
+			return
+		}
+		if spf, _ := c10SpfVar(v); spf != nil || depth == 0 || g.Obj == nil {
+			views = append(views, v)
+			return
+		}
+		n := 0
+		for _, h := range pkgFuncs {
+			if h != g && h.Obj != nil && callsObj(h, g.Obj) {
+				n++
+				visit(h, depth-1)
+			}
+		}
+		if n == 0 {
+			views = append(views, v)
+		}
+	}
+	for _, g := range pkgFuncs {
+		if g != fcq && g.Obj != nil && callsObj(g, fcq.Obj) {
+			visit(g, 2)
+		}
+	}
+	return views, why
+}
+
+func c10Frame(c *core.Ctx) {
+	c.Clause("C10.frame", func() {
+		c.Fn(c10FCQ)
+		views, why := c10FrameViews(c.P)
+		c.Need(len(views) > 0, "some function tests frames with forklessCausedByQuorumOn")
+		minStart, minStep := -1, -1
+		for _, f := range views {
+			c.Need(f != nil, why)
+			nStart, nStep := c10FrameSearch(c, f)
+			if minStart < 0 || nStart < minStart {
+				minStart = nStart
+			}
+			if minStep < 0 || nStep < minStep {
+				minStep = nStep
+			}
+		}
+		c.ExpectAtLeast("start values of the frame search", minStart, 1)
+		c.ExpectAtLeast("steps of the frame search", minStep, 1)
+	})
+}
+
+// c10FrameSearch decides the frame search in one view (calcFrameIdx as one body with the helpers it calls
+// seen through, or a caller with calcFrameIdx as part of its body; the quorum test stays a call).
+func c10FrameSearch(c *core.Ctx, f *core.FuncInfo) (nStart, nStep int) {
+	{
+		// the self-parent's frame: the variable that receives <…SelfParent()…>.Frame(); its other values are 0
+		spf, ev := c10SpfVar(f)
 		c.Need(spf != nil, "calcFrameIdx reads the self-parent's frame into a variable")
+		if ev == nil {
+			ev = f.Param(0)
+		}
+		c.Need(ev != nil, "calcFrameIdx names its event parameter")
 		isSpfValue := func(a assignment) bool { // a value the self-parent-frame variable may hold
 			if a.RHS == nil {
 				_, isSpec := a.Stmt.(*ast.ValueSpec)
@@ -120,7 +235,6 @@ func c10Frame(c *core.Ctx) {
 		qs := f.CallsTo(c10FCQ)
 		c.ExpectAtLeast("quorum tests in calcFrameIdx", len(qs), 1)
 		passed := c15BoolFact(true, func(e ast.Expr) bool { return isCallTo(f, e, c10FCQ) != nil })
-		nStart, nStep := 0, 0
 		for _, q := range qs {
 			if len(q.Call.Args) != 2 || varOf(f, c15Through(f, q.Call.Args[0])) != ev {
 				c.Fail("quorum is tested for the event itself", "T8 provenance", q.Pos(), "forklessCausedByQuorumOn is not asked about calcFrameIdx's own event: the frame is derived from another event's observations")
@@ -192,7 +306,6 @@ func c10Frame(c *core.Ctx) {
 					"in "+short(f.Name)+" the frame tested by forklessCausedByQuorumOn can be "+what+" (assigned here), which is neither the self-parent's frame nor the previously tested frame plus one: the climb no longer starts at the self-parent's frame, so e.g. an event without self-parent (frame 0, no roots to observe) is tested against the roots of frame 1 and is built into / accepted in a frame above 1, and the roots, votes and Atropos of the following frames differ from the specified rules")
 			}
 		}
-		c.ExpectAtLeast("start values of the frame search", nStart, 1)
-		c.ExpectAtLeast("steps of the frame search", nStep, 1)
-	})
+	}
+	return nStart, nStep
 }
